@@ -18,6 +18,16 @@ func main() {
 		return
 	}
 	model.InitConstMaps(P)
+	if os.Args[2] == "initdump" {
+		P.SSA[load.ModPath].Func("init").WriteTo(os.Stdout)
+		return
+	}
+	if os.Args[2] == "constslices" {
+		for g, l := range model.ConstSlices(P) {
+			fmt.Println(g.Name(), len(l))
+		}
+		return
+	}
 	fn := P.Func(load.ModPath, os.Args[2])
 	A := model.NewAnalysis(fn)
 	if len(os.Args) > 4 {
